@@ -61,6 +61,45 @@ def denseDag (n : Nat) : String :=
   "module M\n" ++ String.join ((List.range n).map fun i =>
     "struct S" ++ toString i ++ " { " ++ String.join (((List.range n).filter (· > i)).map fun j => "f" ++ toString j ++ ": S" ++ toString j ++ " ") ++ "}\n")
 
+/-- `layers` layers of two interfaces, each inheriting both interfaces of the previous layer -/
+def layeredIfaces (layers : Nat) : String :=
+  "module M\ninterface A0 { a0() }\ninterface B0 { b0() }\n" ++ String.join ((List.range (layers - 1)).map fun k =>
+    let i := toString (k + 1); let j := toString k
+    "interface A" ++ i ++ " : A" ++ j ++ ", B" ++ j ++ " {}\ninterface B" ++ i ++ " : A" ++ j ++ ", B" ++ j ++ " {}\n")
+
+def layeredStructs (layers : Nat) : String :=
+  "module M\nstruct A0 {}\nstruct B0 {}\n" ++ String.join ((List.range (layers - 1)).map fun k =>
+    let i := toString (k + 1); let j := toString k
+    "struct A" ++ i ++ " { a: A" ++ j ++ ", b: B" ++ j ++ " }\nstruct B" ++ i ++ " { a: A" ++ j ++ ", b: Sequence<B" ++ j ++ "> }\n")
+
+/-- every struct contains (optionally) every other one -/
+def completeDigraph (n : Nat) : String :=
+  "module M\n" ++ String.join ((List.range n).map fun i =>
+    "struct S" ++ toString i ++ " { " ++ String.join (((List.range n).filter (· != i)).map fun j => "f" ++ toString j ++ ": S" ++ toString j ++ "? ") ++ "}\n")
+
+/-- `X0 a X1 b`, `X1 a X2 b`, …, then the last element written with `lastPre n lastPost` -/
+def chainOf (n : Nat) (pre mid post lastPre lastPost : String) : String :=
+  "module M\n" ++ String.join ((List.range n).map fun i => pre ++ toString i ++ mid ++ toString (i + 1) ++ post ++ "\n") ++
+    lastPre ++ toString n ++ lastPost ++ "\n"
+
+/-- file sets in which a syntax error follows members that already carry a lint -/
+def orphanTemplates : List (List String) :=
+  let bad := "/// @foo\n"
+  [ ["module M enum E { A(\n" ++ bad ++ "x: int32) B(\n" ++ bad ++ "y: int32) }}\n"],
+    ["module M\nenum E {\n" ++ bad ++ "A(\n" ++ bad ++ "x: int32),\n" ++ bad ++ "B %\n}\n"],
+    ["module M\nunchecked enum E : uint8 {\n" ++ bad ++ "A = 1,\n" ++ bad ++ "B = 2 %\n}\n"],
+    ["module M\nstruct S {\n" ++ bad ++ "x: int32\n" ++ bad ++ "y: bool %\n}\n"],
+    ["module M\nstruct S {\n" ++ bad ++ "x: int32 } %\n"],
+    ["module M\n[allow(MalformedDocComment)] struct S {\n" ++ bad ++ "[allow(All)] x: int32\n %\n"],
+    ["module M\ninterface I {\n" ++ bad ++ "op(\n" ++ bad ++ "p: int32) -> (\n" ++ bad ++ "a: bool,\n" ++ bad ++ "b: bool)\n" ++ bad ++ "op2() %\n}\n"],
+    ["module M\ninterface I {\n" ++ bad ++ "op(\n" ++ bad ++ "p: int32) %\n}\n"],
+    ["module M\ninterface N {\n    I(op: int32) foo %\n}\n", "module M::N\ninterface I {\n    " ++ bad ++ "    op() bar %\n}\n"],
+    ["module M\ninterface N {\n    I(op: int32) foo %\n}\n", "module M::N\ninterface I {\n    " ++ bad ++ "    op()\n}\n"],
+    ["module M\nstruct S {\n" ++ bad ++ "x: int32\n}\nstruct T {\n" ++ bad ++ "y: Sequence<\n}\n", "module M\n" ++ bad ++ "struct U { " ++ bad ++ " z: bool }\n"],
+    ["module M\n" ++ bad ++ "typealias T = \n" ++ bad ++ "struct S {}\n"],
+    ["module M\n" ++ bad ++ "custom C\n" ++ bad ++ "custom D %\n"],
+    ["module M\nenum E { A(\n/// {@link x}\n/// @param y: z\nx: int32, tag(1) y: bool?) B(" ] ]
+
 def nested (open_ close : String) (depth : Nat) (core : String) : String :=
   String.join (List.replicate depth open_) ++ core ++ String.join (List.replicate depth close)
 
@@ -80,26 +119,68 @@ def genC01 (tier : Tier) (seed : Nat) (o : Out) : IO Unit := do
               "enum A { X(a: A) }", "struct A { r: Result<bool, A> }", "typealias A = B\ntypealias B = A", "typealias A = A",
               "typealias A = B\ntypealias B = A\nstruct S { a: A }", "compact struct K { k: K }\nstruct U { d: Dictionary<K, bool> }"] do
     o.line (anyCase "cycles" "-" ["module M\n" ++ src ++ "\n"])
-  for src in ["interface A : A {}", "interface A : B {}\ninterface B : A {}", "interface A : B { op() }\ninterface B : C {}\ninterface C : A { op() }"] do
-    o.line (anyCase "known-d05a-inherit-loop" "-" ["module M\n" ++ src ++ "\n"])
+  for src in ["interface A : A {}", "interface A : B {}\ninterface B : A {}", "interface A : B { op() }\ninterface B : C {}\ninterface C : A { op() }",
+              "interface Z : A {}\ninterface A : B {}\ninterface B : A {}"] do
+    o.line (anyCase "regress-d05a-inherit-loop" "-" ["module M\n" ++ src ++ "\n"])
   for src in ["typealias A = Sequence<A>", "typealias A = Dictionary<int32, A>\nstruct S { a: A }", "typealias A = Result<B, bool>\ntypealias B = Sequence<A>"] do
-    o.line (anyCase "known-d05c-alias-anon-loop" "-" ["module M\n" ++ src ++ "\n"])
-  -- dense acyclic dependency graphs (the cycle detector enumerates simple paths)
+    o.line (anyCase "regress-d05c-alias-anon-loop" "-" ["module M\n" ++ src ++ "\n"])
+  -- dense acyclic dependency graphs (the cycle detector used to enumerate every simple path, D-05b) and layered
+  -- inheritance DAGs (all_base_interfaces used to expand an interface once per path, D-05e)
   for n in [4, 8, 10, 12, 14] do
     o.line (anyCase ("dense" ++ toString n) "-" [denseDag n])
-  o.line (anyCase "known-d05b-dense24" "-" [denseDag 24])
+  for n in [24, 28, 40, 64] do
+    o.line (anyCase "regress-d05b-dense-dag" "-" [denseDag n])
+  for n in [10, 18, 26, 40, 80] do
+    o.line (anyCase "regress-d05e-layered-inheritance" "-" [layeredIfaces n])
+    o.line (anyCase "layered-structs" "-" [layeredStructs n])
+  -- dense CYCLIC graphs: every simple cycle through the checked type is enumerated (open finding D-05d)
+  for n in [3, 5, 7] do
+    o.line (anyCase ("complete" ++ toString n) "-" [completeDigraph n])
+  o.line (anyCase "known-d05d-complete-digraph" "-" [completeDigraph 12])
+  -- a user element named like a primitive (used to replace the primitive's entry in the lookup table, D-01b)
+  for prim in ["bool", "int8", "uint8", "int16", "uint16", "int32", "uint32", "varint32", "varuint32", "int64", "uint64", "varint62",
+               "varuint62", "float32", "float64", "string"] do
+    let a := "module \\" ++ prim ++ "\nstruct S {}\n"
+    let b := "module M\nstruct T { a: " ++ prim ++ ", b: Sequence<" ++ prim ++ "> }\n"
+    o.line (anyCase "regress-d01b-shadowed-primitive" "-" [a, b])
+    o.line (anyCase "regress-d01b-shadowed-primitive" "-" [b, a])
+    o.line (anyCase "regress-d01b-shadowed-primitive" "-" ["struct \\" ++ prim ++ " {}\nstruct S { a: " ++ prim ++ " }\n"])
+    o.line (anyCase "regress-d01b-shadowed-primitive" "-" ["module \\" ++ prim ++ "\nstruct \\" ++ prim ++ " { a: " ++ prim ++ ", b: \\" ++ prim ++ " }\n"])
+  -- members whose parent is dropped by a later syntax error, with a lint scoped to the member (used to leave a dangling
+  -- parent pointer that `into_updated` dereferenced, D-01c)
+  for t in orphanTemplates do
+    o.line (anyCase "regress-d01c-orphaned-member" "-" t)
+    o.line (anyCase "regress-d01c-orphaned-member" "A=All" t)
   -- deep nesting within 8 KiB
-  for d in [10, 100, 500] do
+  for d in [10, 100, 500, 800] do
     o.line (anyCase "deep-types" "-" ["module M\nstruct S { f: " ++ nested "Sequence<" ">" d "bool" ++ " }\n"])
-    o.line (anyCase "deep-preproc" "-" ["#if " ++ nested "(" ")" d "X" ++ "\nmodule M\n#endif\n"])
+    o.line (anyCase "deep-dict" "-" ["module M\nstruct S { f: " ++ nested "Dictionary<bool, " ">" (d / 2) "bool" ++ " }\n"])
+    o.line (anyCase "deep-alias" "-" ["module M\ntypealias T = " ++ nested "Sequence<" ">" d "bool" ++ "\nstruct S { f: T }\n"])
+    o.line (anyCase "deep-preproc" "-" ["#if " ++ nested "(" ")" (4 * d) "X" ++ "\nmodule M\n#endif\n"])
+    o.line (anyCase "deep-preproc-and" "-" ["#if " ++ " && ".intercalate (List.replicate (d + 1) "X") ++ "\nmodule M\n#endif\n"])
+    o.line (anyCase "deep-ifnest" "-" [String.join (List.replicate d "#if X\n") ++ "module M\n" ++ String.join (List.replicate d "#endif\n")])
+    o.line (anyCase "deep-ifnest" "D=X" [String.join (List.replicate d "#if X\n") ++ "module M\n" ++ String.join (List.replicate d "#endif\n")])
     o.line (anyCase "deep-attrs" "-" ["module M\n" ++ String.join (List.replicate d "[cs::a]\n") ++ "struct S {}\n"])
+    o.line (anyCase "chain-structs" "-" [chainOf d "struct S" " { a: S" " }" "struct S" " {}"])
+    o.line (anyCase "chain-interfaces" "-" [chainOf (d / 2) "interface I" " : I" " {}" "interface I" " {}"])
+    o.line (anyCase "chain-aliases" "-" [chainOf (d / 2) "typealias T" " = T" "" "typealias T" " = bool"])
+    o.line (anyCase "chain-compact-key" "-" [chainOf (d / 4) "compact struct S" " { a: S" " }" "compact struct S" " { a: bool }" ++ "struct D { d: Dictionary<S0, bool> }\n"])
   -- doc comments: indentation of different widths, odd characters
   for doc in ["/// a\n///  b\n///   c\n", "///\ta\n///  b\n", "///  x\n///  y\n", "///　x\n///　　y\n", "/// {@link S} x\n///   y\n",
               "/// @param\n", "/// @\n", "/// {@link\n", "/// {@link S\n/// }\n", "/// @see\n", "/// @returns x: y\n/// z\n", "///\n///\n", "/// \r\n/// x\r\n"] do
     o.line (anyCase "doc" "-" ["module M\n" ++ doc ++ "struct S {}\n"])
     o.line (anyCase "doc-op" "-" ["module M\ninterface I {\n" ++ doc ++ "op(p: bool) -> bool\n}\n"])
-  for doc in ["///  x\n/// 　y\n", "/// é x\n///  y\n", "/// a\n/// b\n"] do
-    o.line (anyCase "known-d16a-mixed-width" "-" ["module M\n" ++ doc ++ "struct S {}\n"])
+  for doc in ["///  x\n/// 　y\n", "/// é x\n///  y\n", "/// a\n/// b\n", "/// a\n///　x\n///  y\n", "/// x\n///　\n", "///　{@link S}\n/// y\n"] do
+    o.line (anyCase "regress-d16a-mixed-width" "-" ["module M\n" ++ doc ++ "struct S {}\n"])
+    o.line (anyCase "regress-d16a-mixed-width" "-" ["module M\ninterface I {\n/// @param p: a\n" ++ doc ++ "op(p: bool)\n}\n"])
+  -- neighbours of the orphaned-member shapes
+  let mut ro := Rng.mk' (seed + 77)
+  for t in orphanTemplates do
+    for _ in [0:(if tier == .thorough then 200 else 25)] do
+      let (which, r1) := ro.below t.length
+      let (m, r2) := mutateText (t.getD which "") r1
+      ro := r2
+      o.line (anyCase "orphaned-member-mutant" "-" (t.set which m))
   -- mutations of valid programs, CRLF / tab variants, options
   let nProg := if tier == .thorough then 5000 else 400
   let nMut := if tier == .thorough then 20 else 12
